@@ -21,13 +21,14 @@ import socket
 import sys
 import threading
 
-ANCHORS = ('_run', '_run_backend')
+ANCHORS = ('_run', '_run_backend', '_run_frontend')
 
 
 class State:
     def __init__(self, plan):
         self.plan = plan
         self.cls = plan.get('cls')
+        self.anchor = plan.get('anchor')          # restrict to one anchor function (e.g. the parent-side frontend thread)
         self.n = int(plan.get('n', 0))
         self.fault = plan.get('fault', 'none')
         self.arm_text = plan.get('arm_text') or []
@@ -182,7 +183,7 @@ def make_tracer(st):
         if not st.interesting(fn):
             return None
         if st.thread is None:
-            if code.co_name in ANCHORS and fn.startswith(st.repo):
+            if code.co_name in ANCHORS and (st.anchor is None or code.co_name == st.anchor) and fn.startswith(st.repo):
                 me = frame.f_locals.get('self')
                 if me is not None and type(me).__name__ == st.cls:
                     st.thread = threading.get_ident()
